@@ -562,3 +562,115 @@ Proof.
   unfold FR32. set (c := f32_of_bits 226492416). vm_compute in c. subst c.
   cbn [Binary.B2R]. apply Rgt_not_eq, Rlt_gt. apply Flocq.Core.Float_prop.F2R_gt_0. reflexivity.
 Qed.
+
+(* ======================================================================================================
+   Rounding, Mahalanobis::distance on the STORED inverse covariance matrix M (binary64; SC.C17.ProofsFloatMaha).
+   The constructor's LU inversion is not covered (no rounding theorem; C01's business) — these theorems
+   take the stored matrix of floats as given and bound the straight-line part, in the model's (= the
+   code's) loop order:  z_i = fl(x_i - y_i) once;  s = 0; for j { for i { s = fl(s + fl(fl(M_ij z_i) z_j)) } };
+   d = fl(sqrt s).  So the quadratic form is ONE recursive sum of n*n terms with 4 roundings each:
+   accumulated relative error (1+u)^(n*n+3) - 1 with respect to A = sum_ij |M_ij z_i z_j| (a bound
+   relative to z^T M z itself cannot exist: cancellation), z_i = x_i - y_i the REAL differences.
+   `RM M` = the matrix of real values of M.  Underflow of the 2 n^2 products contributes n*n*e with
+   e = eta64 (1 + (1+u)^2 sum_j |z_j|)  (the inner product's underflow error is multiplied by z_j).
+   ====================================================================================================== *)
+From SC Require Import C17.ProofsFloatMaha.
+
+Theorem C17_mahalanobis_quadform_float_error :
+  forall (n : nat) (M : list (list PrimFloat.float)) (x y : list PrimFloat.float),
+  length x = n -> length y = n ->
+  PrimFloat.is_finite (quadform FOps n M (vsub FOps x y)) = true ->
+  let z := fun i => comp (RV x) i - comp (RV y) i in
+  let Q := qform n (RM M) z in
+  let A := sigma n (fun j => sigma n (fun i => Rabs (entry (RM M) i j * z i * z j))) in
+  let e := eta64 * (1 + (1 + u64) ^ 2 * sigma n (fun j => Rabs (z j))) in
+  quadform ROps n (RM M) (vsub ROps (RV x) (RV y)) = Q /\ Rabs Q <= A /\
+  Rabs (FR (quadform FOps n M (vsub FOps x y)) - Q) <=
+    ((1 + u64) ^ (n * n + 3) - 1) * (A + INR (n * n) * e) + INR (n * n) * e.
+Proof. exact quadform_float_error. Qed.
+
+(* the same with any bound Zm on the |z_j| in the underflow term (e.g. their maximum) *)
+Theorem C17_mahalanobis_quadform_float_error_gen :
+  forall (n : nat) (M : list (list PrimFloat.float)) (x y : list PrimFloat.float) (Zm : R),
+  length x = n -> length y = n ->
+  PrimFloat.is_finite (quadform FOps n M (vsub FOps x y)) = true ->
+  let z := fun i => comp (RV x) i - comp (RV y) i in
+  0 <= Zm -> (forall j, (j < n)%nat -> Rabs (z j) <= Zm) ->
+  let Q := qform n (RM M) z in
+  let A := sigma n (fun j => sigma n (fun i => Rabs (entry (RM M) i j * z i * z j))) in
+  let e := eta64 * (1 + (1 + u64) ^ 2 * Zm) in
+  quadform ROps n (RM M) (vsub ROps (RV x) (RV y)) = Q /\ Rabs Q <= A /\
+  Rabs (FR (quadform FOps n M (vsub FOps x y)) - Q) <=
+    ((1 + u64) ^ (n * n + 3) - 1) * (A + INR (n * n) * e) + INR (n * n) * e.
+Proof. exact quadform_float_error_gen. Qed.
+
+(* the distance: B = the absolute bound above on the quadratic form.  For Q >= 0 the error is at most
+   u sqrt Q + (1+u) sqrt B; for Q > 0 also u sqrt Q + (1+u) B / sqrt Q (i.e. relative error about
+   u + B/Q: the condition number A/Q of the form enters, as it must).  The real-number model on the
+   real values of the inputs is defined and equals sqrt Q, the value the metric theorems are about. *)
+Theorem C17_mahalanobis_float_error :
+  forall (n : nat) (M : list (list PrimFloat.float)) (x y : list PrimFloat.float) (d : PrimFloat.float),
+  mahalanobis FOps n M x y = Some d -> PrimFloat.is_finite d = true ->
+  let z := fun i => comp (RV x) i - comp (RV y) i in
+  let Q := qform n (RM M) z in
+  let A := sigma n (fun j => sigma n (fun i => Rabs (entry (RM M) i j * z i * z j))) in
+  let e := eta64 * (1 + (1 + u64) ^ 2 * sigma n (fun j => Rabs (z j))) in
+  let B := ((1 + u64) ^ (n * n + 3) - 1) * (A + INR (n * n) * e) + INR (n * n) * e in
+  mahalanobis ROps n (RM M) (RV x) (RV y) = Some (R_sqrt.sqrt Q) /\
+  0 <= FR d /\ 0 <= B /\
+  (0 <= Q -> Rabs (FR d - R_sqrt.sqrt Q) <= u64 * R_sqrt.sqrt Q + (1 + u64) * R_sqrt.sqrt B) /\
+  (0 < Q -> Rabs (FR d - R_sqrt.sqrt Q) <= u64 * R_sqrt.sqrt Q + (1 + u64) * (B / R_sqrt.sqrt Q)).
+Proof. exact mahalanobis_float_error. Qed.
+
+(* symmetry in binary64, for ANY stored matrix (not necessarily symmetric: both calls visit the same
+   (i, j) in the same order, only z changes sign): if d(x, y) is finite then d(y, x) is finite, has the
+   same real value, and is the same float whenever that value is non-zero.  (Not literally "negate z":
+   x_i - x_i is +0 in both directions, so zero terms may differ in sign; a zero RESULT is +0 or -0 and the
+   theorem does not say which.  Non-finite results are outside the statement.) *)
+Theorem C17_mahalanobis_float_symmetric :
+  forall (n : nat) (M : list (list PrimFloat.float)) (x y : list PrimFloat.float) (d : PrimFloat.float),
+  mahalanobis FOps n M x y = Some d -> PrimFloat.is_finite d = true ->
+  exists d', mahalanobis FOps n M y x = Some d' /\ PrimFloat.is_finite d' = true /\
+             FR d' = FR d /\ (FR d <> 0 -> d' = d).
+Proof. exact mahalanobis_float_symmetric. Qed.
+
+(* non-vacuity: an inexact, non-symmetric 2x2 matrix [[0.3, 0.1], [0.2, 0.7]] (nearest binary64 numbers),
+   x = (0.1, 0.2), y = (0.3, 0.1): every operation rounds; the results of d(x, y) and d(y, x) are
+   finite and bit-identical *)
+Example C17_mahalanobis_float_instance_inexact :
+  let M := [[0x1.3333333333333p-2; 0x1.999999999999ap-4]; [0x1.999999999999ap-3; 0x1.6666666666666p-1]]%float in
+  let x := [0x1.999999999999ap-4; 0x1.999999999999ap-3]%float in
+  let y := [0x1.3333333333333p-2; 0x1.999999999999ap-4]%float in
+  length x = 2%nat /\ length y = 2%nat /\
+  PrimFloat.is_finite (quadform FOps 2 M (vsub FOps x y)) = true /\
+  exists d, mahalanobis FOps 2 M x y = Some d /\ PrimFloat.is_finite d = true /\
+            mahalanobis FOps 2 M y x = Some d /\ PrimFloat.eqb d 0%float = false.
+Proof. cbv zeta. split; [reflexivity|]. split; [reflexivity|]. split; [vm_compute; reflexivity|].
+  eexists. repeat split; vm_compute; reflexivity. Qed.
+
+(* non-vacuity of 0 < Q (and of the bound Zm): M = [[2, 1], [1, 2]], x = (1, 2), y = (0, 0): Q = 14 *)
+Example C17_mahalanobis_float_instance_Q :
+  let M := [[2; 1]; [1; 2]]%float in let x := [1; 2]%float in let y := [0; 0]%float in
+  let z := fun i => comp (RV x) i - comp (RV y) i in
+  qform 2 (RM M) z = 14 /\ 0 < qform 2 (RM M) z /\ 0 <= 2 /\ (forall j, (j < 2)%nat -> Rabs (z j) <= 2) /\
+  exists d, mahalanobis FOps 2 M x y = Some d /\ PrimFloat.is_finite d = true.
+Proof.
+  cbv zeta.
+  assert (E1 : FR 1%float = 1) by (change 1%float with (float_of_Z 1); apply FR_int; lia).
+  assert (E2 : FR 2%float = 2) by (change 2%float with (float_of_Z 2); apply FR_int; lia).
+  assert (EQ : qform 2 (RM [[2; 1]; [1; 2]]%float)
+                 (fun i => comp (RV [1; 2]%float) i - comp (RV [0; 0]%float) i) = 14).
+  { unfold qform, sigma, entry, RM, RV, comp, Rsum. cbn [seq map fold_right nth].
+    rewrite E1, E2, FR_zero. lra. }
+  split; [exact EQ|]. split; [rewrite EQ; lra|]. split; [lra|]. split.
+  - intros j Hj. unfold RV, comp. destruct j as [|[|j]]; [| |lia]; cbn [map nth];
+      rewrite ?E1, ?E2, FR_zero, Rminus_0_r, Rabs_pos_eq; lra.
+  - eexists. split; vm_compute; reflexivity.
+Qed.
+
+(* ... and in fact BIT-IDENTICAL for every finite result, zero included: a float sum is -0 only if both
+   operands are -0 and the accumulator starts at +0, so neither quadratic form is -0 *)
+Theorem C17_mahalanobis_float_symmetric_bits :
+  forall (n : nat) (M : list (list PrimFloat.float)) (x y : list PrimFloat.float) (d : PrimFloat.float),
+  mahalanobis FOps n M x y = Some d -> PrimFloat.is_finite d = true -> mahalanobis FOps n M y x = Some d.
+Proof. exact mahalanobis_float_symmetric_bits. Qed.
